@@ -19,20 +19,24 @@ OPNAME = {
     "k": "poll-match-without-offer", "u": "poll-undecodable-offer", "n": "poll-no-match-then-error",
     "b": "relay-url-unparsable", "r": "relay-url-rejected", "R": "relay-url-scheme-rejected", "p": "peer-connection-failure",
     "a": "answer-http-error", "g": "answer-client-gone", "m": "answer-malformed-response",
-    "t": "datachannel-timeout", "o": "datachannel-open", "q": "relay-unreachable",
+    "t": "datachannel-timeout", "T": "datachannel-timeout-connected-client", "w": "poll-repeated-no-match", "o": "datachannel-open", "q": "relay-unreachable",
     "A": "answer-fail-after-datachannel-open", "+": "bare-get", "c": "client-close", "d": "relay-close",
     "-": "bare-ret", "B": "blocked-at-capacity", "E": "final-poll",
 }
 
 
 def parse_res(tok):
-    """c<count>h<chlen>p<polls> -> (count, chlen, [polls]) or None"""
+    """c<count>h<chlen>p<polls> -> (count, chlen, [(Clients figure, tokens.count() at that poll)]) or None"""
     try:
         if tok[0] != "c":
             return None
         c, rest = tok[1:].split("h", 1)
         h, p = rest.split("p", 1)
-        polls = [] if p == "-" else [int(x) for x in p.split(".")]
+        polls = [] if p == "-" else [tuple(int(y) for y in x.split("@")) for x in p.split(".")]
+        if any(len(x) > 2 for x in polls):
+            return None
+        # start mode prints the bare figure: count itself was sampled when that poll arrived
+        polls = [x if len(x) == 2 else (x[0], int(c)) for x in polls]
         return int(c), int(h), polls
     except (ValueError, IndexError):
         return None
@@ -80,19 +84,34 @@ def walk(line, impl):
             return (i, k, "format", "unparsable result " + r)
         count, chl, polls = pr
         at_poll = before + 1
+        at_polls = None    # slots in use when each poll of the op was computed (None: at_poll for all)
         if k in "cd-":
             held.discard(int(op[1:]))
+        elif k == "w":
+            # the session polls once per round and once more; the sessions of a round end after its poll
+            at_polls = []
+            for rnd in op[1:].split("/"):
+                at_polls.append(len(held) + 1)
+                for x in ([] if rnd == "_" else rnd.split(".")):
+                    held.discard(int(x))
+            at_polls.append(len(held) + 1)
+            sid += 1
         else:
             if k in OPEN:
                 held.add(sid)
             sid += 1
         after = len(held)
         expect = at_poll if mode == "start" else after     # start mode samples at poll arrival
-        for p in polls:
+        for j, (p, measured) in enumerate(polls):
+            inuse = at_poll if at_polls is None or j >= len(at_polls) else at_polls[j]
             if p % 8 != 0:
-                return (i, k, "load-not-multiple-of-8", "poll reported Clients=%d, not a multiple of 8" % p)
-            if p < 0 or p > at_poll:
-                return (i, k, "load-exceeds-in-use", "poll reported Clients=%d with %d slots in use" % (p, at_poll))
+                return (i, k, "load-not-multiple-of-8", "poll %d of op %d (%s) reported Clients=%d, not a multiple of 8" % (j, i, op, p))
+            if p < 0 or p > inuse or p > measured:
+                return (i, k, "load-exceeds-in-use", "poll %d of op %d (%s) reported Clients=%d with %d slots in use (tokens.count()=%d at that moment)" % (j, i, op, p, inuse, measured))
+            if measured < inuse:
+                return (i, k, "released-twice", "at poll %d of op %d (%s) tokens.count()=%d but %d slots are held: a slot was released twice" % (j, i, op, measured, inuse))
+            if measured > inuse:
+                return (i, k, "leaked", "at poll %d of op %d (%s) tokens.count()=%d but only %d slots are held: a slot leaked" % (j, i, op, measured, inuse))
         if count < expect:
             return (i, k, "released-twice", "after op %d (%s) tokens.count()=%d but %d slots are held: a slot was released twice" % (i, op, count, expect))
         if count > expect:
@@ -101,7 +120,7 @@ def walk(line, impl):
             return (i, k, "channel", "after op %d (%s) len(tokens.ch)=%d but %d slots are held" % (i, op, chl, expect))
         if cap != 0 and count > cap:
             return (i, k, "over-capacity", "%d slots in use with capacity %d" % (count, cap))
-        if k not in "cd-+" and len(polls) != (2 if k == "n" else 1):
+        if k not in "cd-+" and len(polls) != (len(at_polls) if at_polls else 2 if k == "n" else 1):
             return (i, k, "polls", "op %d (%s) saw %d polls" % (i, op, len(polls)))
     return None
 
@@ -138,7 +157,7 @@ def rand_script(rng, cap, n, allow_slow=False):
             else:
                 k = "+"
             if allow_slow and rng.random() < 0.1:
-                k = rng.choice("tn")
+                k = rng.choice("tTn")
             ops.append(k)
             if k in OPEN:
                 held[sid] = k
@@ -165,6 +184,23 @@ def load_script(rng, base):
             ops.append("+"); held.append(sid); sid += 1
         else:
             ops.append("-%d" % held.pop(rng.randrange(len(held))))
+    ops.append("e")
+    return ",".join(ops)
+
+
+def repoll_script(rng, base, rounds, real=0):
+    """base bare gets (and `real` served clients), then ONE session whose poll is answered "no match"
+    `rounds` times while held sessions end between its polls, so the load it reports has to follow"""
+    ops = ["+"] * base + ["o"] * real
+    held = list(range(base + real))
+    rng.shuffle(held)
+    rs = []
+    for r in range(rounds):
+        n = rng.choice([0, 1, len(held) // 2, len(held) - 1, len(held)]) if r else rng.randrange(max(1, len(held) - 7), len(held) + 1)
+        n = max(0, min(n, len(held)))
+        rs.append(".".join(str(held.pop()) for _ in range(n)) or "_")
+    ops.append("w" + "/".join(rs))
+    ops += [("-%d" if i < base else "c%d") % i for i in sorted(held)]
     ops.append("e")
     return ",".join(ops)
 
@@ -213,9 +249,21 @@ def slow_cases(ctx):
     """cases that wait for real timers (20 s data channel timeout, 5 s poll interval): one driver
     process each, run while the fast cases run"""
     rng = ctx.rng
+    eight = ".".join(str(i) for i in range(8))
     cases = [("seq 2 o,t,c0,e", "timeout"), ("seq 1 n,o,c1", "no-match"),
+             # a client that connects but never announces a data channel: the 20 s timer fires with an
+             # ESTABLISHED peer connection
+             ("seq 2 o,T,c0,e", "timeout-connected"),
+             # one session polls three times while the eight served sessions end between its polls
+             ("seq 0 " + ",".join(["+"] * 8) + ",w" + eight + "/_,e", "repoll"),
+             ("seq 17 " + repoll_script(rng, 14, 2, real=2), "repoll"),
              ("start 1 e,o,B,c1,u,E", "start"), ("start 2 o,A,B,d0,a,p,E", "start")]
     if ctx.tier == "thorough":
+        cases += [("seq 0 T,T", "timeout-connected"), ("seq 1 T,o,c1,T,e", "timeout-connected"),
+                  ("seq 3 o,T,A,c0,c2,T", "timeout-connected")]
+        for _ in range(8):
+            base = rng.choice([8, 9, 15, 16, 17, 24, rng.randrange(8, 30)])
+            cases.append(("seq %d %s" % (rng.choice([0, 40]), repoll_script(rng, base, rng.choice([1, 2, 3]), real=rng.choice([0, 0, 1]))), "repoll"))
         cases += [("seq 0 t,t", "timeout"), ("seq 1 t,n,e", "timeout"), ("seq 3 o,o,t,A,c0,c1,c3", "timeout"),
                   ("start 1 o,B,c0,b,g,o,B,d3,E", "start"), ("start 3 o,o,o,B,c1,r,o,B,c0,u,c2,c4,E", "start"),
                   ("start 0 o,e,o,j,c0,c2,E", "start")]
